@@ -367,21 +367,26 @@ class MpmcRingBuffer {
         std::is_nothrow_move_assignable<T>::value,
         "MpmcRingBuffer::try_pop(T&) requires a nothrow-move-assignable T; "
         "use try_pop() or try_pop_into() for nothrow-move-constructible-only types");
+    DISPENSO_VERIF_POINT("PopLdHead", this);
     size_t head = head_.load(std::memory_order_relaxed);
     // Fast empty-check: a relaxed tail load is much cheaper than the acquire
     // slot.seq load below (esp. on weak-memory architectures: ldr vs ldar).
     // Callers that poll many sources for work hit this path constantly.
+    DISPENSO_VERIF_POINT("PopLdTail", this);
     if (head == tail_.load(std::memory_order_relaxed)) {
       return false;
     }
     Slot& slot = slots_[wrapIndex(head)];
+    DISPENSO_VERIF_POINT("PopLdSeq", this);
     size_t seq = slot.seq.load(std::memory_order_acquire);
     intptr_t diff = static_cast<intptr_t>(seq) - static_cast<intptr_t>(head + 1);
     if (diff == 0) {
+      DISPENSO_VERIF_POINT("PopCas", this);
       if (head_.compare_exchange_strong(head, head + 1, std::memory_order_relaxed)) {
         T* elem = dataPtr(slot);
         item = std::move(*elem);
         elem->~T();
+        DISPENSO_VERIF_POINT("PopStSeq", this);
         slot.seq.store(head + kBufferSize, std::memory_order_release);
         return true;
       }
@@ -411,18 +416,23 @@ class MpmcRingBuffer {
    * @endcode
    */
   OpResult<T> try_pop() {
+    DISPENSO_VERIF_POINT("PopLdHead", this);
     size_t head = head_.load(std::memory_order_relaxed);
+    DISPENSO_VERIF_POINT("PopLdTail", this);
     if (head == tail_.load(std::memory_order_relaxed)) {
       return {};
     }
     Slot& slot = slots_[wrapIndex(head)];
+    DISPENSO_VERIF_POINT("PopLdSeq", this);
     size_t seq = slot.seq.load(std::memory_order_acquire);
     intptr_t diff = static_cast<intptr_t>(seq) - static_cast<intptr_t>(head + 1);
     if (diff == 0) {
+      DISPENSO_VERIF_POINT("PopCas", this);
       if (head_.compare_exchange_strong(head, head + 1, std::memory_order_relaxed)) {
         T* elem = dataPtr(slot);
         OpResult<T> result(std::move(*elem));
         elem->~T();
+        DISPENSO_VERIF_POINT("PopStSeq", this);
         slot.seq.store(head + kBufferSize, std::memory_order_release);
         return result;
       }
@@ -446,18 +456,23 @@ class MpmcRingBuffer {
    * @note This operation is lock-free and fail-fast (no retry loop).
    */
   bool try_pop_into(T* storage) {
+    DISPENSO_VERIF_POINT("PopLdHead", this);
     size_t head = head_.load(std::memory_order_relaxed);
+    DISPENSO_VERIF_POINT("PopLdTail", this);
     if (head == tail_.load(std::memory_order_relaxed)) {
       return false;
     }
     Slot& slot = slots_[wrapIndex(head)];
+    DISPENSO_VERIF_POINT("PopLdSeq", this);
     size_t seq = slot.seq.load(std::memory_order_acquire);
     intptr_t diff = static_cast<intptr_t>(seq) - static_cast<intptr_t>(head + 1);
     if (diff == 0) {
+      DISPENSO_VERIF_POINT("PopCas", this);
       if (head_.compare_exchange_strong(head, head + 1, std::memory_order_relaxed)) {
         T* elem = dataPtr(slot);
         new (storage) T(std::move(*elem));
         elem->~T();
+        DISPENSO_VERIF_POINT("PopStSeq", this);
         slot.seq.store(head + kBufferSize, std::memory_order_release);
         return true;
       }
@@ -501,12 +516,14 @@ class MpmcRingBuffer {
       count = kBufferSize;
     }
 
+    DISPENSO_VERIF_POINT("BatLdTail", this);
     size_t tail = tail_.load(std::memory_order_relaxed);
 
     // Validate each slot in the reservation range.
     size_t available = 0;
     for (size_t i = 0; i < count; ++i) {
       Slot& slot = slots_[wrapIndex(tail + i)];
+      DISPENSO_VERIF_POINT("BatLdSeq", this);
       size_t seq = slot.seq.load(std::memory_order_acquire);
       intptr_t diff = static_cast<intptr_t>(seq) - static_cast<intptr_t>(tail + i);
       if (diff != 0) {
@@ -518,10 +535,12 @@ class MpmcRingBuffer {
       return 0;
     }
 
+    DISPENSO_VERIF_POINT("BatCas", this);
     if (tail_.compare_exchange_strong(tail, tail + available, std::memory_order_relaxed)) {
       for (size_t i = 0; i < available; ++i) {
         Slot& slot = slots_[wrapIndex(tail + i)];
         new (dataPtr(slot)) T(std::move(items[i]));
+        DISPENSO_VERIF_POINT("BatStSeq", this);
         slot.seq.store(tail + i + 1, std::memory_order_release);
       }
       return available;
@@ -539,7 +558,9 @@ class MpmcRingBuffer {
    *       from any thread, but the result is only a hint.
    */
   bool empty() const {
+    DISPENSO_VERIF_POINT("ObsLdHead", this);
     size_t head = head_.load(std::memory_order_relaxed);
+    DISPENSO_VERIF_POINT("ObsLdTail", this);
     size_t tail = tail_.load(std::memory_order_relaxed);
     return head == tail;
   }
@@ -553,7 +574,9 @@ class MpmcRingBuffer {
    *       from any thread, but the result is only a hint.
    */
   bool full() const {
+    DISPENSO_VERIF_POINT("ObsLdHead", this);
     size_t head = head_.load(std::memory_order_relaxed);
+    DISPENSO_VERIF_POINT("ObsLdTail", this);
     size_t tail = tail_.load(std::memory_order_relaxed);
     return (tail - head) >= kBufferSize;
   }
@@ -568,7 +591,9 @@ class MpmcRingBuffer {
    *       momentarily exceed capacity() under concurrent modification.
    */
   size_type size() const {
+    DISPENSO_VERIF_POINT("ObsLdHead", this);
     size_t head = head_.load(std::memory_order_relaxed);
+    DISPENSO_VERIF_POINT("ObsLdTail", this);
     size_t tail = tail_.load(std::memory_order_relaxed);
     return tail - head;
   }
@@ -608,16 +633,20 @@ class MpmcRingBuffer {
   // the forwarding adds no runtime cost on the hot path.
   template <typename... Args>
   bool emplaceImpl(Args&&... args) {
+    DISPENSO_VERIF_POINT("PushLdTail", this);
     size_t tail = tail_.load(std::memory_order_relaxed);
     Slot& slot = slots_[wrapIndex(tail)];
+    DISPENSO_VERIF_POINT("PushLdSeq", this);
     size_t seq = slot.seq.load(std::memory_order_acquire);
     intptr_t diff = static_cast<intptr_t>(seq) - static_cast<intptr_t>(tail);
     if (diff == 0) {
       // ABA-free: tail_ is a monotonic 64-bit counter, so a successful CAS proves no other
       // producer claimed this position since the load (see "Correctness & ABA-freedom" above).
       // Fail-fast: a single attempt, no retry loop -- contention returns false, not corruption.
+      DISPENSO_VERIF_POINT("PushCas", this);
       if (tail_.compare_exchange_strong(tail, tail + 1, std::memory_order_relaxed)) {
         new (dataPtr(slot)) T(std::forward<Args>(args)...);
+        DISPENSO_VERIF_POINT("PushStSeq", this);
         slot.seq.store(tail + 1, std::memory_order_release);
         return true;
       }
